@@ -445,6 +445,12 @@ def check_c03(ctx, sched):
                     continue
                 site = _c03_site(o["op"]) or _abstract(msg)
                 violation("C03", "parse-failure", site, msg[:300], op=o["op"])
+    injected_ops2 = {f["op"] for f in S.fired}
+    for l in S.logs:
+        if l["tb"] and l["msg"].startswith("error handling request") and l["op"] not in injected_ops2:
+            site = sim.site_from_traceback_text(l["tb"])
+            if not any(v["prop"] == "C03" and v["site"] == site for v in S.violations):
+                violation("C03", "index-raises", site, l["tb"][-1200:], op=l["op"])
     seen = set()
     for l in S.logs:
         if "Error while parsing file" in l["msg"] and l["tb"]:
@@ -778,6 +784,13 @@ def check_c20(ctx, sched):
             site = sim.site_from_traceback_text(l["tb"])
             if not any(v["prop"] == "C20" and v["site"].endswith(site) for v in S.violations):
                 violation("C20", "recursion", "logged: " + site, l["tb"][-800:], op=l["op"])
+        elif l["tb"] and l["msg"].startswith("error handling request"):
+            # an exception swallowed by the notification dispatcher: the document was not
+            # (completely) indexed
+            site = sim.site_from_traceback_text(l["tb"])
+            if not any(v["prop"] == "C20" and v["site"].endswith(site) for v in S.violations):
+                violation("C20", "index-failure", "notification handler raised: " + site, l["tb"][-800:],
+                          op=l["op"])
 
 
 # ---------------------------------------------------------------- transcripts
